@@ -83,6 +83,22 @@ def directed_item(rng, delay, op):
     return {"k": "custom", "delay_ns": delay, "varbinds": vbs, "pdu": "response"}
 
 
+def v3_tail_item(rng, delay):
+    """v3 only: a well-formed envelope whose security fields and msgData are degenerate
+    (short / absent MAC, odd salt, tiny or missing msgData), so that offsets computed from
+    the security parameters point at the very end of the datagram."""
+    it = {"k": "genuine", "delay_ns": delay, "rewrite": {}}
+    m = rng.choice(["absent", "short", "short", "zero", "valid"])
+    it["rewrite"]["mac"] = {"mac": m, "mac_len": rng.randrange(0, 12)} if m == "short" else m
+    if rng.random() < 0.5:
+        it["rewrite"]["salt"] = garbage(rng, rng.choice([0, 0, 1, 7, 8, 9])).hex()
+    tail = rng.choice(["0400", "040100", "3000", "0500", "04820000", "", "0408" + "00" * 8, "30020400"])
+    it["inner"] = [{"op": "raw", "name": "scoped-pdu", "hex": tail}]
+    if rng.random() < 0.3:
+        it["rewrite"]["flags"] = rng.choice([0, 1, 2, 3, 4, 5, 7, 0xFF])
+    return it
+
+
 def corrupt_item(rng, delay):
     """One corrupted in-flight reply."""
     it = {"k": "genuine", "delay_ns": delay}
@@ -124,8 +140,8 @@ class C01(Prop):
         "error is injected. half of the plans are executed twice with different poison bytes in all never-written buffer memory and must agree. "
         "non-trivial = a corrupted datagram or socket error was consumed by a pending call; distinct = distinct abstract trace"
     )
-    quick_runs = 6000
-    thorough_runs = 200000
+    quick_runs = 40000
+    thorough_runs = 600000
 
     def families(self, tier):
         return [("corrupt", 6), ("directed", 4), ("sockerr", 1), ("raw-only", 1)]
@@ -180,7 +196,10 @@ class C01(Prop):
                     for _ in range(rng.randint(1, 4)):
                         items.append({"k": "raw", "hex": garbage(rng).hex(), "delay_ns": lat})
                 elif family == "directed":
-                    items.append(directed_item(rng, lat, op))
+                    if sess["version"] == "v3" and rng.random() < 0.4:
+                        items.append(v3_tail_item(rng, lat))
+                    else:
+                        items.append(directed_item(rng, lat, op))
                 else:
                     for j in range(rng.choice([1, 1, 2])):
                         items.append(corrupt_item(rng, lat + j * 1001))
